@@ -110,6 +110,10 @@ abbrev Lib := List Package
 def Lib.find (lib : Lib) (name : Str) (ver : Option Str) : Option Package :=
   List.find? (fun p => p.name == name && p.version == ver) lib
 
+/-- the import names of every package are distinct (they are the keys of an `IndexMap`); the
+    driver checks it for every library it is given, the refinement theorem assumes it -/
+def Lib.wf (lib : Lib) : Bool := lib.all fun p => decide p.imports.names.Nodup
+
 /-- `Package::definitions`: the type exports that define an interface, as interface (instance) kinds -/
 def Package.definition (p : Package) (seg : Str) : Option Kind :=
   match p.exports.get seg with
